@@ -31,6 +31,18 @@ const (
 
 var clsName = [...]string{"short", "ioerror", "longprune", "crashrestart", "longprune_ioerror"}
 
+const (
+	// a Flush/Close of more than largeBatch records counts as a "large batch" (probes only; the generator
+	// does not know this number: sizes come from bulkSize)
+	largeBatch = 512
+	// log tails longer than this are never enumerated byte by byte
+	bigTail      = 1024
+	bigTailCuts  = 24
+	recBlockSize = 32 * 1024 // Pebble's record block
+	smallLogCap  = 28000     // runs without a bulk append stop growing a log file here (one record block)
+	bulkLogCap   = 400000
+)
+
 type poss struct {
 	st    *MState
 	carry []MRec // records of failed flushes the store may still hold in memory
@@ -71,13 +83,24 @@ type w14 struct {
 	nTails      int
 	cleanupNext bool // the next prune flush is the one that crosses the cleanup interval
 	small       bool // generate small entries only (long runs: keep the log below one 32 KiB record block)
+
+	bulk      bool // this run appends one (rarely two) very large batch(es): log files span several record blocks
+	bulkAt    int  // index of the ordinary operation before which the bulk append happens
+	bulkSizes []int
+	pendBytes int  // approximate encoded size of the pending records (only used to place write faults)
+	largeNow  bool // the call being evaluated flushes a large batch
+	logCap    int
 }
 
 func C14(c *sim.Ctx) {
 	t := c.T
-	w := &w14{c: c, stride: 1, adoptWant: -1, curHeight: 1}
+	w := &w14{c: c, stride: 1, adoptWant: -1, curHeight: 1, logCap: smallLogCap}
 	w.cls = []int{clsShort, clsShort, clsShort, clsFault, clsFault, clsFault, clsCrash, clsCrash, clsLong, clsLongFault}[t.Draw("class", 10)]
+	if w.cls != clsLong && w.cls != clsLongFault && t.Draw("bulk_run", 8) == 7 {
+		w.bulk, w.bulkAt, w.logCap = true, t.Draw("bulk_at", 6), bulkLogCap
+	}
 	w.disk = NewDisk(WALDir)
+	w.disk.CoalesceWrites = true
 	w.disk.AfterOp = w.afterOp
 	Install(w.disk)
 	defer func() {
@@ -89,7 +112,11 @@ func C14(c *sim.Ctx) {
 	}()
 	w.poss = []poss{{st: NewMState()}}
 	w.capturing = true
-	c.Logf("class=%s", clsName[w.cls])
+	if w.bulk {
+		c.Logf("class=%s bulk", clsName[w.cls])
+	} else {
+		c.Logf("class=%s", clsName[w.cls])
+	}
 	w.open("open")
 
 	switch w.cls {
@@ -98,12 +125,22 @@ func C14(c *sim.Ctx) {
 	default:
 		n := 6 + t.Draw("nops", 20)
 		for i := 0; i < n; i++ {
+			if w.bulk && i == w.bulkAt {
+				w.bulkOp()
+				if t.Draw("bulk_again", 4) == 3 {
+					w.bulkAt = i + 1 + t.Draw("bulk_again_at", 4)
+				}
+			}
 			w.randomOp()
 		}
 	}
 	w.finish()
 	c.Nontrivial = w.nFlushRecs >= 1 && w.nImages >= 3
-	c.Sample = map[string]any{"class": clsName[w.cls], "flushes_with_records": w.nFlushRecs, "images": w.nImages, "disk_ops": w.disk.NOps()}
+	sample := map[string]any{"class": clsName[w.cls], "flushes_with_records": w.nFlushRecs, "images": w.nImages, "disk_ops": w.disk.NOps()}
+	if w.bulk {
+		sample["bulk_appends"] = w.bulkSizes
+	}
+	c.Sample = sample
 }
 
 // ---- capturing ---------------------------------------------------------------------------------------
@@ -176,6 +213,9 @@ func (w *w14) evalCaptures(call string, during []*MState, after []*MState) {
 		if cp.failed {
 			where = call + "/failed-" + cp.kind.String()
 		}
+		if w.largeNow {
+			w.c.Probe("crash_inside_large_flush")
+		}
 		w.evalPoint(cp, where, during)
 	}
 	w.caps = w.caps[:0]
@@ -196,7 +236,17 @@ func (w *w14) evalCaptures(call string, during []*MState, after []*MState) {
 	}
 }
 
-func (w *w14) evalPoint(cp *capture, where string, allowed []*MState) {
+func allowedKey(allowed []*MState) uint64 {
+	h := fnv.New64a()
+	for _, a := range allowed {
+		h.Write([]byte(a.Canon()))
+		h.Write([]byte{'#'})
+	}
+	return h.Sum64()
+}
+
+func (w *w14) evalPoint(cp *capture, where string, allowedStates []*MState) {
+	allowed := allowedSet{states: allowedStates, key: allowedKey(allowedStates)}
 	w.evalImage(cp.S, where, "synced", allowed)
 	same := cp.S.Equal(cp.F)
 	if !same {
@@ -227,6 +277,14 @@ func (w *w14) evalPoint(cp *capture, where string, allowed []*MState) {
 		if stride == 1 && w.nTails > 2 && len(full)-sl > 48 {
 			stride = 5
 		}
+		if tail := len(full) - sl; tail > bigTail {
+			// the tail of a large batch: about bigTailCuts sampled offsets (tape-chosen phase) plus every
+			// record-block boundary, the first and the last byte
+			if s := (tail + bigTailCuts - 1) / bigTailCuts; s > stride {
+				stride = s
+			}
+			w.c.Probe("big_tail_sampled")
+		}
 		phase := 0
 		if stride > 1 {
 			phase = w.c.T.Draw("stride_phase", stride)
@@ -234,7 +292,7 @@ func (w *w14) evalPoint(cp *capture, where string, allowed []*MState) {
 			w.c.Probe("tail_enumerated_bytewise")
 		}
 		for L := sl; L < len(full); L++ {
-			if stride > 1 && (L-sl)%stride != phase && L != sl && L != len(full)-1 {
+			if stride > 1 && (L-sl)%stride != phase && L != sl && L != len(full)-1 && L%recBlockSize != 0 {
 				continue
 			}
 			img := cp.F.Clone()
@@ -316,7 +374,12 @@ func (w *w14) mix(cp *capture) Image {
 	return img
 }
 
-func hashImage(img Image, variantAllowed string) uint64 {
+type allowedSet struct {
+	states []*MState
+	key    uint64
+}
+
+func hashImage(img Image, allowedKey uint64) uint64 {
 	h := fnv.New64a()
 	for _, n := range img.Names() {
 		h.Write([]byte(n))
@@ -324,19 +387,19 @@ func hashImage(img Image, variantAllowed string) uint64 {
 		h.Write(img[n])
 		h.Write([]byte{0xff})
 	}
-	h.Write([]byte(variantAllowed))
+	var k [8]byte
+	for i := range k {
+		k[i] = byte(allowedKey >> (8 * i))
+	}
+	h.Write(k[:])
 	return h.Sum64()
 }
 
 // evalImage restarts the real store on the image and compares what it loads with the allowed states.
-func (w *w14) evalImage(img Image, where, variant string, allowed []*MState) {
+func (w *w14) evalImage(img Image, where, variant string, as allowedSet) {
 	c := w.c
-	var ak strings.Builder
-	for _, a := range allowed {
-		ak.WriteString(a.Canon())
-		ak.WriteByte('#')
-	}
-	hk := hashImage(img, ak.String())
+	allowed := as.states
+	hk := hashImage(img, as.key)
 	track := w.adoptWant >= 0
 	if w.seen[hk] && !track {
 		return
@@ -348,7 +411,7 @@ func (w *w14) evalImage(img Image, where, variant string, allowed []*MState) {
 	st, err := OpenStore()
 	if err != nil {
 		Install(w.disk)
-		c.Fail("open_error", where+"/"+variant, "NewTendermintWALStore failed on a crash image: %v\nimage: %s\nallowed[0]: %s", err, img, allowed[0].Canon())
+		c.Fail("open_error", where+"/"+variant, "NewTendermintWALStore failed on a crash image: %v\nimage: %s\nallowed[0]: %s", err, img, brief(allowed[0].Canon()))
 	}
 	ents, lerr := LoadEntries(st)
 	_ = st.Close()
@@ -368,9 +431,9 @@ func (w *w14) evalImage(img Image, where, variant string, allowed []*MState) {
 		cls := Classify(got, allowed)
 		var sb strings.Builder
 		for i, a := range allowed {
-			fmt.Fprintf(&sb, "\n  allowed[%d] (pruned<=%d): %s", i, a.WM, a.Canon())
+			fmt.Fprintf(&sb, "\n  allowed[%d] (pruned<=%d, %d entries): %s", i, a.WM, a.Count(), brief(a.Canon()))
 		}
-		c.Fail(cls, where+"/"+variant, "crash image %s\n  loaded: %s%s", img, gc, sb.String())
+		c.Fail(cls, where+"/"+variant, "crash image %s\n  loaded (%d entries): %s%s", img, got.Count(), brief(gc), sb.String())
 	}
 	if track {
 		if w.adoptSeenN <= w.adoptWant {
@@ -389,12 +452,22 @@ func (w *w14) evalImage(img Image, where, variant string, allowed []*MState) {
 	}
 }
 
+// brief shortens the canonical text of a large state for messages.
+func brief(s string) string {
+	const keep = 700
+	if len(s) <= 2*keep+40 {
+		return s
+	}
+	return fmt.Sprintf("%s ...(%d bytes omitted)... %s", s[:keep], len(s)-2*keep, s[len(s)-keep:])
+}
+
 // ---- operations ----------------------------------------------------------------------------------------
 
 func (w *w14) open(call string) {
 	c := w.c
 	before := w.disk.NOps()
 	st, err := OpenStore()
+	w.disk.Settle()
 	if err != nil {
 		w.caps = w.caps[:0]
 		if w.faultSince {
@@ -421,9 +494,9 @@ func (w *w14) open(call string) {
 		cls := Classify(got, allowed)
 		var sb strings.Builder
 		for i, a := range allowed {
-			fmt.Fprintf(&sb, "\n  allowed[%d] (pruned<=%d): %s", i, a.WM, a.Canon())
+			fmt.Fprintf(&sb, "\n  allowed[%d] (pruned<=%d, %d entries): %s", i, a.WM, a.Count(), brief(a.Canon()))
 		}
-		c.Fail(cls, call+"/live-reopen", "reopen on the live disk loaded: %s%s", got.Canon(), sb.String())
+		c.Fail(cls, call+"/live-reopen", "reopen on the live disk loaded (%d entries): %s%s", got.Count(), brief(got.Canon()), sb.String())
 	}
 	w.poss = dedupePoss(keep)
 	w.faultSince = false
@@ -477,7 +550,36 @@ func (w *w14) set(h types.Height) {
 		w.c.Fail("spurious_error", "SetWALEntry", "SetWALEntry(%s) failed: %v", s, err)
 	}
 	w.pending = append(w.pending, MRec{H: h, S: s})
+	w.pendBytes += encodedSize(e)
 	w.c.Logf("set %s", s)
+}
+
+// encodedSize: approximate size of the entry's record inside a batch. Only used to aim write faults at a
+// byte position inside the flush; a wrong value costs a fault that does not fire, nothing else.
+func encodedSize(e wal.Entry[V, H, A]) int {
+	const recordHeader = 11 + 2
+	switch e := e.(type) {
+	case *wal.Start:
+		return recordHeader + 8
+	case *wal.Timeout:
+		return recordHeader + 17
+	case *wal.Proposal[V, H, A]:
+		if e.Value == nil {
+			return recordHeader + 57
+		}
+		return recordHeader + 89
+	case *wal.Prevote[H, A]:
+		if e.ID == nil {
+			return recordHeader + 49
+		}
+		return recordHeader + 81
+	case *wal.Precommit[H, A]:
+		if e.ID == nil {
+			return recordHeader + 49
+		}
+		return recordHeader + 81
+	}
+	return recordHeader
 }
 
 func (w *w14) del(h types.Height) {
@@ -485,7 +587,94 @@ func (w *w14) del(h types.Height) {
 		w.c.Fail("spurious_error", "DeleteWALEntries", "DeleteWALEntries(%d) failed: %v", h, err)
 	}
 	w.pending = append(w.pending, MRec{Prune: true, H: h})
+	w.pendBytes += 20
 	w.c.Logf("delete<=%d", h)
+}
+
+// ---- bulk appends: batches far larger than anything a consensus round produces ---------------------------
+
+// bulkSize: swarm-style size of one bulk append. The boundaries an implementation might have (powers of
+// two, round numbers, each -1/+0/+1) and a uniform spread; nothing here is derived from the code under test.
+func (w *w14) bulkSize() int {
+	t := w.c.T
+	switch t.Draw("bulk_form", 4) {
+	case 0:
+		anchors := []int{513, 512, 511, 1025, 1024, 1023, 257, 256, 255, 2049, 2048, 2047, 129, 100, 1000, 1001, 1536, 3000, 4097}
+		return anchors[t.Draw("bulk_anchor", len(anchors))]
+	case 1:
+		return 65 + t.Draw("bulk_uniform", 2500)
+	case 2:
+		return 1<<uint(6+t.Draw("bulk_pow", 6)) + t.Draw("bulk_jitter", 3) - 1 // 64 .. 2048, -1/0/+1
+	default:
+		m := []int{100, 250, 500, 1000}[t.Draw("bulk_mult_base", 4)]
+		return m*(1+t.Draw("bulk_mult", 4)) + t.Draw("bulk_jitter", 3) - 1 // 100 .. 4000, -1/0/+1
+	}
+}
+
+// bulkOp buffers one very large batch of small entries (optionally with a prune record somewhere inside)
+// and then flushes, closes or crashes - or leaves it to the operations that follow.
+func (w *w14) bulkOp() {
+	c, t := w.c, w.c.T
+	size := w.bulkSize()
+	style := t.Draw("bulk_style", 3) // 0: start entries; 1: timeout entries with increasing round; 2: both, two heights
+	if size > 2600 {
+		style = 0
+	}
+	pruneAt := -1
+	if t.Draw("bulk_prune", 3) == 2 {
+		pruneAt = t.Draw("bulk_prune_at", size+1)
+	}
+	h0 := w.curHeight
+	for i := 0; i < size; i++ {
+		if i == pruneAt {
+			w.bulkDel()
+		}
+		h := w.curHeight
+		var e wal.Entry[V, H, A]
+		switch {
+		case style == 0 || (style == 2 && i%5 == 0):
+			if style == 2 {
+				h++
+			}
+			s := wal.Start(h)
+			e = &s
+		default:
+			tm := wal.Timeout{Step: types.Step(i % 3), Height: h, Round: types.Round(i)}
+			e = &tm
+		}
+		if err := w.store.SetWALEntry(e); err != nil {
+			c.Fail("spurious_error", "SetWALEntry", "SetWALEntry(%s) failed: %v", RenderEntry(e), err)
+		}
+		w.pending = append(w.pending, MRec{H: h, S: RenderEntry(e)})
+		w.pendBytes += encodedSize(e)
+	}
+	if pruneAt == size {
+		w.bulkDel()
+	}
+	w.bulkSizes = append(w.bulkSizes, size)
+	then := t.Draw("bulk_then", 5)
+	c.Logf("bulk append n=%d style=%d from-height=%d prune-at=%d then=%d", size, style, h0, pruneAt, then)
+	inject := w.cls == clsFault && t.Draw("inject?", 3) != 0
+	switch then {
+	case 0, 1:
+		w.flushLike("flush", false, inject)
+	case 2:
+		w.closeReopen(inject)
+	case 3:
+		w.crashRestart()
+	default:
+		// stays pending: the operations that follow add to it and flush it
+	}
+}
+
+func (w *w14) bulkDel() {
+	h := w.curHeight
+	if err := w.store.DeleteWALEntries(h); err != nil {
+		w.c.Fail("spurious_error", "DeleteWALEntries", "DeleteWALEntries(%d) failed: %v", h, err)
+	}
+	w.pending = append(w.pending, MRec{Prune: true, H: h})
+	w.pendBytes += 20
+	w.curHeight++
 }
 
 // afterStates: what the durable state may be once the in-flight batch is complete.
@@ -521,7 +710,36 @@ func (w *w14) flushLike(call string, isClose bool, inject bool) {
 		nrec += len(p.carry)
 	}
 	fired0 := w.disk.Fired
-	if inject {
+	large := nrec > largeBatch
+	w.largeNow = large
+	defer func() { w.largeNow = false }()
+	if large {
+		c.Probe("large_batch_flush")
+	}
+	if inject && w.bulk {
+		// log files of this run may span several record blocks: how the bytes of a record are cut into
+		// Write calls is not deterministic there, so a write fault is placed by byte position
+		switch t.Draw("bulk_fault_kind", 8) {
+		case 0, 1, 2:
+			w.disk.ArmFault(OpSync, 1+t.Draw("fault_nth", 4), false)
+		case 3, 4, 5:
+			est := 12 + 11 + w.pendBytes
+			var at int
+			switch t.Draw("fault_byte_form", 3) {
+			case 0:
+				at = t.Draw("fault_byte", est+32)
+			case 1:
+				at = est - 1 - t.Draw("fault_byte_from_end", min(est, 96))
+			default:
+				at = t.Draw("fault_byte_from_start", min(est, 64))
+			}
+			w.disk.ArmWriteFaultAtByte(int64(at))
+		case 6:
+			w.disk.ArmFault(OpCreate, 1, false)
+		default:
+			w.disk.ArmFault(OpDirSync, 1, false)
+		}
+	} else if inject {
 		var kinds []OpKind
 		if w.cleanupNext {
 			// write/sync (batch, watermark tmp, trailer), create (tmp), rename, dirsync, remove
@@ -546,11 +764,15 @@ func (w *w14) flushLike(call string, isClose bool, inject bool) {
 	} else {
 		err = w.store.Flush()
 	}
+	w.disk.Settle()
 	firedKind := ""
 	if inject {
 		if w.disk.Fired > fired0 {
 			firedKind = w.disk.FailKind.String()
 			c.Fault("io_error_" + firedKind)
+			if large {
+				c.Fault("io_error_inside_large_flush")
+			}
 			w.faultSince = true
 		}
 		w.disk.Disarm()
@@ -569,8 +791,9 @@ func (w *w14) flushLike(call string, isClose bool, inject bool) {
 			}
 		}
 		w.poss = after
-		w.pending = nil
+		w.pending, w.pendBytes = nil, 0
 		w.evalCaptures(call, during, states(w.poss))
+		w.noteBlocks()
 		return
 	}
 	if !w.faultSince {
@@ -585,9 +808,28 @@ func (w *w14) flushLike(call string, isClose bool, inject bool) {
 	}
 	np = append(np, after...)
 	w.poss = dedupePoss(np)
-	w.pending = nil
+	w.pending, w.pendBytes = nil, 0
 	c.Probe("flush_reported_failure")
 	w.evalCaptures(call, during, states(w.poss))
+	w.noteBlocks()
+	// "A flush that reports failure ... does not make the log unusable": the disk is healthy again (the one
+	// injected error is over), so the SAME process must be able to append and flush. (After a failed Close
+	// the store is closed; that case is covered by usableAfterFault through a reopen.)
+	if !isClose && firedKind != "" && t.Draw("retry_in_process", 4) != 0 {
+		if t.Draw("retry_without_append", 4) != 3 {
+			w.set(w.curHeight)
+		}
+		w.flushLikeMustSucceed("flush(after-failed-flush)", "after-"+firedKind+"-error",
+			"after a Flush that failed with an injected "+firedKind+" error, the next append+Flush of the same process (no fault injected any more)")
+		c.Probe("flush_after_failed_flush_ok")
+	}
+}
+
+// noteBlocks: probe for log files that have grown past one record block (multi-block records / files).
+func (w *w14) noteBlocks() {
+	if w.usedLogSize > recBlockSize {
+		w.c.Probe("log_file_spans_record_blocks")
+	}
 }
 
 func (w *w14) closeReopen(inject bool) {
@@ -622,6 +864,7 @@ func (w *w14) crashRestart() {
 	c.Logf("crash: restart from image %s expecting %d entries", img, st[0].Count())
 	c.Fault("crash_restart")
 	w.disk = NewDiskFromImage(WALDir, img)
+	w.disk.CoalesceWrites = true
 	w.disk.AfterOp = w.afterOp
 	Install(w.disk)
 	w.poss = nil
@@ -629,7 +872,7 @@ func (w *w14) crashRestart() {
 		w.poss = append(w.poss, poss{st: a})
 	}
 	w.poss = dedupePoss(w.poss)
-	w.pending = nil
+	w.pending, w.pendBytes = nil, 0
 	w.faultSince = false
 	w.open("recover")
 }
@@ -655,7 +898,7 @@ func (w *w14) pickHeight() types.Height {
 
 func (w *w14) randomOp() {
 	t := w.c.T
-	if w.usedLogSize > 28000 {
+	if w.usedLogSize > w.logCap {
 		w.c.Probe("size_cap")
 		return
 	}
@@ -709,25 +952,28 @@ func (w *w14) usableAfterFault() {
 	w.poss = dedupePoss(w.poss)
 	w.open("reopen") // fails the run with class "unusable" if the open fails
 	w.set(w.curHeight)
-	before := w.poss
-	w.flushLikeMustSucceed("flush(after-io-error)")
-	_ = before
+	w.flushLikeMustSucceed("flush(after-io-error)", "", "after an injected I/O error, Close and reopen, an append+Flush without any fault")
 	c.Probe("usable_after_io_error_checked")
 }
 
-func (w *w14) flushLikeMustSucceed(call string) {
+func (w *w14) flushLikeMustSucceed(call, keySuffix, what string) {
 	c := w.c
 	after := w.afterStates()
 	during := append(states(w.poss), states(after)...)
 	err := w.store.Flush()
+	w.disk.Settle()
 	c.Logf("%s -> err=%v", call, err != nil)
 	if err != nil {
 		w.caps = w.caps[:0]
-		c.Fail("unusable", call, "after an injected I/O error, Close and reopen, an append+Flush without any fault failed: %v", err)
+		key := call
+		if keySuffix != "" {
+			key += "/" + keySuffix
+		}
+		c.Fail("unusable", key, "%s failed: %v", what, err)
 	}
 	w.nFlushRecs++
 	w.poss = after
-	w.pending = nil
+	w.pending, w.pendBytes = nil, 0
 	w.evalCaptures(call, during, states(w.poss))
 }
 
